@@ -129,7 +129,12 @@ pub fn make_cfg(base_seed: u64, batch: &Batch, idx: u64) -> RunCfg {
     let mut cfg = RunCfg { seed: run_seed(base_seed, &batch.name, idx), ..Default::default() };
     if let Some(st) = batch.strata {
         for (k, v) in st(idx) {
-            cfg.overrides.insert(k, v);
+            if k == "__seed_index" {
+                // several run indices share one sampled history (fault enumeration over it)
+                cfg.seed = run_seed(base_seed, &batch.name, v);
+            } else {
+                cfg.overrides.insert(k, v);
+            }
         }
     }
     cfg
